@@ -25,6 +25,7 @@ def run(ctx: Ctx, chk) -> None:
     chk.run_rule(factory1, ctx)
     chk.run_rule(absorb1, ctx)
     chk.run_rule(override1, ctx)
+    chk.run_rule(resync1, ctx)
 
 
 def eea_stream(ctx: Ctx, chk) -> None:
@@ -157,6 +158,26 @@ def frame1(ctx: Ctx, chk) -> None:
                         reader_calls.append((f, n, fact[0]))
                     elif fact[0].startswith("asyncio.streams.StreamWriter."):
                         writer_calls.append((f, n, fact[0]))
+    # --- resynchronisation after an over-long line: in the LimitOverrunError handler the scanned chunk may be dropped
+    # with `await reader.readexactly(err.consumed)` (result unused) - judged by RESYNC-2 below, not a second consumer
+    discards = []
+    for f_, n_, nm_ in list(reader_calls):
+        if f_ is not read or not nm_.endswith(".readexactly"):
+            continue
+        par = prog.parents.get(n_)
+        stmt = prog.parents.get(par) if isinstance(par, ast.Await) else None
+        cur = n_
+        handler = None
+        while cur in prog.parents and cur is not read.node:
+            cur = prog.parents[cur]
+            if isinstance(cur, ast.ExceptHandler):
+                handler = cur
+                break
+        if isinstance(stmt, ast.Expr) and handler is not None and handler.type is not None and norm(handler.type).endswith("LimitOverrunError") and len(n_.args) == 1 and norm(n_.args[0]) == f"{handler.name}.consumed":
+            discards.append((n_, handler))
+            reader_calls.remove((f_, n_, nm_))
+    if discards:
+        resync2(ctx, chk, read, discards)
     # --- single consumer, readuntil(TERMINATOR)
     chk.instance(rule)
     rc = [(f, n, nm) for f, n, nm in reader_calls]
@@ -246,6 +267,46 @@ def frame1(ctx: Ctx, chk) -> None:
             chk.ok(rule, key, "await writer.drain() after write, both inside the OSError mapping", ctx.loc(f, n))
         else:
             chk.refute(rule, key, f"drain is {'not awaited' if not awaited else 'outside the OSError mapping' if not (in_try and w_in_try) else 'before the write'}", ctx.loc(f, n))
+
+
+def resync2(ctx: Ctx, chk, read, discards) -> None:
+    rule = "RESYNC-2"
+    chk.rule(rule, "dropping the scanned chunk of an over-long line is only half a resynchronisation: the handler also sets a flag on the transport, and while that flag is set no path from a successful readuntil reaches the return without another readuntil (the rest of the over-long line, up to its terminator, is skipped instead of being delivered as a line)")
+    from ..cfg import CFG
+    from ..prov import Canon
+
+    g = CFG(read.node)
+    cn = Canon(ctx.I, read, "")
+    for call, handler in discards:
+        chk.instance(rule)
+        key = f"{read.fq}::except LimitOverrunError::skips-rest-of-line"
+        flags = [norm(t) for st_ in handler.body if isinstance(st_, ast.Assign) and isinstance(st_.value, ast.Constant) and st_.value.value is True for t in st_.targets if isinstance(t, ast.Attribute) and isinstance(t.value, ast.Name) and t.value.id == "self"]
+        if not flags:
+            chk.refute(rule, key, f"`{norm(call)[:60]}` drops what readuntil scanned, but nothing remembers that the rest of that line is still to come: the tail of the over-long line (or an empty line) is delivered by the next read as if it were a line of the stream", ctx.loc(read, call))
+            continue
+        ru = [x for x in g.nodes if x.ast is not None and x.kind in ("stmt", "test", "with-enter") and any(isinstance(c, ast.Call) and isinstance(c.func, ast.Attribute) and c.func.attr == "readuntil" for p_ in x.parts() for c in ast.walk(p_))]
+        rets = [x for x in g.nodes if isinstance(x.ast, ast.Return)]
+
+        def truth(tn, flags=flags):
+            te = tn.ast
+            txt = cn.canon(te)
+            for fl in flags:
+                if txt == fl:
+                    return True
+                if txt == f"not {fl}":
+                    return False
+            return None
+
+        starts = [s_ for r in ru for s_, lab in r.succ if lab != "exc"]
+        p = g.reach_avoiding(starts, lambda x: x in rets, lambda x: x in ru, labels_skip=("exc",), from_succ=False, truth=truth)
+        resets = [x for x in g.nodes if x.kind == "stmt" and isinstance(x.ast, ast.Assign) and isinstance(x.ast.value, ast.Constant) and x.ast.value.value is False and any(norm(t) in flags for t in x.ast.targets)]
+        p_loop = g.reach_avoiding(starts, lambda x: x in ru, lambda x: x in resets or x in rets, labels_skip=("exc",), from_succ=False, truth=truth)
+        if p is None and p_loop is not None:
+            chk.refute(rule, key, f"the skipped line loops back to readuntil without clearing {flags[0]} ({' -> '.join(g.path_text(p_loop)[:4])}): after one over-long line every following line is skipped and read() never returns again", ctx.loc(read, handler))
+        elif p is None:
+            chk.ok(rule, key, f"while {flags[0]} is set a successful readuntil is not returned but followed by another one", ctx.loc(read, handler))
+        else:
+            chk.refute(rule, key, f"although the handler sets {flags[0]}, a line read while it is set still reaches the return ({' -> '.join(g.path_text(p)[:4])})", ctx.loc(read, handler))
 
 
 def _enclosing_try_catching(ctx: Ctx, f, node: ast.AST, exc: str) -> bool:
@@ -417,3 +478,36 @@ def _thin_override(ctx: Ctx, f, name: str) -> bool:
                     continue
             return False
     return True
+
+
+def resync1(ctx: Ctx, chk, rule: str = "RESYNC-1") -> None:
+    """asyncio contract (trusted, documented): StreamReader.readuntil raises LimitOverrunError WITHOUT consuming -
+    "the data will be left in the internal buffer and can be read again"."""
+    chk.rule(rule, "an over-long line does not wedge the stream: where read() handles asyncio.LimitOverrunError it consumes the offending data from the reader before raising (readuntil leaves it in the buffer - documented asyncio contract), so that the lines that follow are still delivered by later reads")
+    st = ctx.cls(ST)
+    read = st.find_method("read")
+    if read is None:
+        raise AnalysisError("anchor vanished: StreamTransport.read")
+    fi = ctx.inl(read, lambda h: h.name != "_open_connection")
+    eea = ctx.eea()
+    fr = _frame(ctx, read)
+    n = 0
+    for h in [x for x in ctx.own_nodes(fi) if isinstance(x, ast.ExceptHandler)]:
+        elts = h.type.elts if isinstance(h.type, ast.Tuple) else [h.type] if h.type is not None else []
+        names = [eea.exc_class_of(x, fr) or norm(x) for x in elts]
+        if not any(nm.endswith("LimitOverrunError") for nm in names):
+            continue
+        n += 1
+        chk.instance(rule)
+        key = f"{read.fq}::except LimitOverrunError::consumes"
+        consuming = [c for b in h.body for c in ast.walk(b) if isinstance(c, ast.Call) and isinstance(c.func, ast.Attribute) and c.func.attr in ("read", "readexactly", "readline", "readuntil") and "reader" in norm(c.func.value)]
+        if consuming:
+            chk.ok(rule, key, f"`{norm(consuming[0])[:60]}` takes the over-long data out of the buffer", ctx.loc(read, h))
+        else:
+            chk.refute(rule, key, "the LimitOverrunError handler raises without consuming anything: readuntil left the over-long chunk in the reader's buffer, so every later read() fails on the same data again and the well-formed lines that follow are never delivered (demos/c17_overlong_line_sticks.py)", ctx.loc(read, h))
+    chk.instance(rule)
+    if n == 0:
+        # no handler at all: the error escapes unmapped (EEA-STREAM's business); nothing to decide here
+        chk.ok(rule, f"{read.fq}::no LimitOverrunError handler", "no handler for LimitOverrunError in read()", read.where, sample=False)
+    else:
+        chk.ok(rule, f"{read.fq}::handlers", f"{n} handler(s) examined", read.where, sample=False)
